@@ -161,8 +161,18 @@ pub fn cfg(v: &Value) -> R<ControlFlowGraph> {
 }
 
 pub fn function(v: &Value) -> R<Function> {
-    Ok(Function::new(
-        v["address"].as_u64().unwrap_or(0),
-        cfg(&v["cfg"])?,
-    ))
+    let mut g = cfg(&v["cfg"])?;
+    // optional edits applied after construction, so that instruction indices are no longer dense
+    // (Block::remove_instruction is public API): "remove": [[block, instruction_index], ...]
+    if let Some(rm) = v["remove"].as_array() {
+        for r in rm {
+            let b = r[0].as_u64().ok_or("remove block")? as usize;
+            let i = r[1].as_u64().ok_or("remove index")? as usize;
+            g.block_mut(b)
+                .map_err(|e| e.to_string())?
+                .remove_instruction(i)
+                .map_err(|e| e.to_string())?;
+        }
+    }
+    Ok(Function::new(v["address"].as_u64().unwrap_or(0), g))
 }
